@@ -617,7 +617,7 @@ func runLint(which string) {
 		}
 	case "L19":
 		sites, hits = montgomeryLimbReads(fns)
-	case "SCAN", "ABS", "ZEROUSE", "ARRIDX":
+	case "SCAN", "ABS", "ZEROUSE", "ARRIDX", "WIDTH":
 		registerScanProgram(p)
 		re := regexp.MustCompile(os.Getenv("GCV_FUNCS"))
 		for _, fn := range fns {
@@ -628,6 +628,8 @@ func runLint(which string) {
 			var h []Finding
 			if which == "SCAN" {
 				n, h = scanLoopBounds(p, fn)
+			} else if which == "WIDTH" {
+				n, h = narrowLengthArithmetic(p, fn)
 			} else if which == "ARRIDX" {
 				n, h = fixedArrayUnboundedIndex(p, fn)
 			} else if which == "ZEROUSE" {
